@@ -223,6 +223,9 @@ def c05(tier, seed, only=None):
     jobs = _persist_jobs(tier, mons, True)
     for j in jobs:
         j["cfg"]["snap_graph"] = True
+        j["cfg"]["render"] = True
+        if j["scn"]["name"] in ("F6/dict-two-terminals", "F6/cleanup-publishes-output", "F6/dict-republish-nobase"):
+            j["cfg"]["dev"] = 3 if tier == "quick" else 4
     # definitions whose input / vars / output fail to render (persist before the first call, too)
     for s in gen.fx_all(tier):
         if s.meta.get("position") in ("input", "vars", "output", "retry_count", "publish") and s.meta.get("lang") == "yaql":
